@@ -558,7 +558,16 @@ def check_bytes_cursor(out, facts):
     if g:
         t, v, ev = wire.infer_decoder_fn(facts, g)
         decs = [e for e in events(t) if e[0] == 'dec']
-        okg = len(decs) == 1 and decs[0][3] == 'wrapped_input' and sym.vstr(decs[0][4]) == 'BytesCursor::BytesCursor{0: bytes, 1: 0:usize}'
+        okg = len(decs) == 1 and decs[0][3] == 'wrapped_input'
+        if okg:
+            # by the role of each field, whatever their order
+            a = strip(decs[0][4])
+            okg = isinstance(a, tuple) and a[0] == 'adt' and a[1].endswith('BytesCursor')
+            if okg:
+                adt = facts.adt_by_path.get(a[1])
+                names = [facts.canon_field(a[1], fl_['name']) for fl_ in adt['variants'][0]['fields']] if adt else []
+                byname = {names[i]: sym.vstr(x) for i, x in a[3] if i < len(names)}
+                okg = byname == {'bytes': 'bytes', 'position': '0:usize'}
         okg = okg and sym.vstr(v) == 'Ok(decoded#%s:T)' % decs[0][2] if decs else False
         out.ob('R08.4', 'decode_from_bytes [%s]' % cfg, okg, 'decode_from_bytes is not T::decode(&mut BytesCursor{bytes, position: 0}): %s -> %s' % (sym.tstr(t), sym.vstr(v)), g['loc'])
     else:
